@@ -19,6 +19,7 @@ import (
 	"path/filepath"
 	"sort"
 	"strings"
+	"sync"
 	"time"
 
 	"github.com/massnetorg/mass-core/pocec"
@@ -691,7 +692,196 @@ func tamper(blob []byte, fld string, r interface{ Intn(int) int }) []byte {
 
 // ---------------------------------------------------------------------------------- run
 
+// ---------------------------------------------------------------------------------- concurrent histories (C14)
+
+// runConc: a sequential prefix (sc.Steps), then sc.Opt["threads"] run concurrently on one manager.  Every call is
+// stamped with a global sequence number before it starts and after it returned; the history is validated by
+// WalletLin.tla (is there a linearisation?).  Built with -race the same binary also reports data races.
+func runConc(sc vh.Scenario, dir string, rec *vh.Rec) {
+	keystore.DefaultScryptOptions = fast
+	d := newDrv(sc, dir)
+	rng := vh.Rng(sc.Seed ^ 0x5eed)
+	w := d.wal("w1")
+	d.wal("w2")
+	defer d.closeWallet(w)
+	if err := d.openWallet(w, "q1"); err != nil {
+		rec.Dead, rec.Note = true, "open: "+err.Error()
+		return
+	}
+	m := w.mgr
+	var seq int64
+	var mu sync.Mutex
+	events := []vh.Event{}
+	emit := func(ev vh.Event) {
+		mu.Lock()
+		seq++
+		ev["seq"] = seq
+		events = append(events, ev)
+		mu.Unlock()
+	}
+	exec := func(t int, st vh.Step) {
+		call := vh.Event{"ev": "call", "t": t}
+		for k, v := range st {
+			call[k] = v
+		}
+		call["a"] = st.A()
+		delete(call, "t0")
+		emit(call)
+		res, out := "ok", map[string]interface{}{}
+		func() {
+			defer func() {
+				if r := recover(); r != nil {
+					res = fmt.Sprintf("panic: %v", r)
+				}
+			}()
+			setErr := func(err error) {
+				if err != nil {
+					res = "err"
+				}
+			}
+			switch st.A() {
+			case "NewKs":
+				id, err := m.NewKeystore(d.pass[st.Str("p")], d.seeds[st.Str("s")], d.remarks[st.Str("r")], config.ChainParams, &fast)
+				setErr(err)
+				if err == nil {
+					mu.Lock()
+					out["id"] = d.learnID(id, st.Str("s"))
+					mu.Unlock()
+				}
+			case "GenKey":
+				pk, ord, err := m.GenerateNewPublicKey()
+				setErr(err)
+				if err == nil {
+					owner := "?"
+					for _, am := range m.GetManagedAddrManager() {
+						if a, err := am.Address(mustAddr(m, pk)); err == nil && a != nil {
+							owner = d.absID(am.Name())
+						}
+					}
+					out["s"], out["idx"] = owner, int(ord)
+					out["pk"] = hex.EncodeToString(pk.SerializeCompressed())
+				}
+			case "NextAddr":
+				mas, err := m.NextAddresses(d.id(st.Str("s")), st.Int("b") == 1, uint32(st.Int("n")))
+				setErr(err)
+				idx := []int{}
+				for _, ma := range mas {
+					ord, _ := m.GetPublicKeyOrdinal(ma.PubKey())
+					idx = append(idx, int(ord))
+				}
+				out["idx"] = idx
+			case "Remark":
+				setErr(m.ChangeRemark(d.id(st.Str("s")), d.remarks[st.Str("r")]))
+			case "Lock":
+				m.Lock()
+			case "Unlock":
+				setErr(m.Unlock(d.pass[st.Str("p")]))
+			case "Export":
+				_, err := m.ExportKeystore(d.id(st.Str("s")), d.pass[st.Str("p")])
+				setErr(err)
+			case "IsLocked":
+				out["locked"] = m.IsLocked()
+			case "List":
+				n := 0
+				for _, am := range m.GetManagedAddrManager() {
+					n += len(am.ListAddresses())
+					_ = am.Remarks()
+				}
+				out["count"] = n
+			case "Sign":
+				// sign with the most recent external key of the keystore (issued before the concurrent phase or during it)
+				var pk *pocec.PublicKey
+				mu.Lock()
+				if h, ok := d.keyTab[fmt.Sprintf("%s/0/%d", st.Str("s"), st.Int("i"))]; ok {
+					raw, _ := hex.DecodeString(h)
+					pk, _ = pocec.ParsePubKey(raw, pocec.S256())
+				}
+				mu.Unlock()
+				if pk == nil {
+					pk = d.foreign.PubKey()
+					out["foreign"] = true
+				}
+				digest := sha256.Sum256([]byte("conc"))
+				sig, err := m.SignHash(pk, digest[:])
+				setErr(err)
+				if err == nil {
+					out["verifies"] = sig.Verify(digest[:], pk)
+				}
+			case "Ordinal":
+				var pk *pocec.PublicKey
+				mu.Lock()
+				if h, ok := d.keyTab[fmt.Sprintf("%s/0/%d", st.Str("s"), st.Int("i"))]; ok {
+					raw, _ := hex.DecodeString(h)
+					pk, _ = pocec.ParsePubKey(raw, pocec.S256())
+				}
+				mu.Unlock()
+				if pk == nil {
+					out["known"] = false
+					return
+				}
+				out["known"] = true
+				ord, found := m.GetPublicKeyOrdinal(pk)
+				out["found"], out["idx"] = found, int(ord)
+			default:
+				res = "unknown-action"
+			}
+		}()
+		emit(vh.Event{"ev": "ret", "t": t, "a": st.A(), "res": res, "out": out})
+	}
+	_ = rng
+	// sequential prefix on thread 0 (its keys are learnt so that Sign / Ordinal can name them)
+	for _, st := range sc.Steps {
+		exec(0, st)
+		if st.A() == "GenKey" || st.A() == "NextAddr" {
+			d.project(m)
+		}
+	}
+	threads, _ := sc.Opt["threads"].([]interface{})
+	var wg sync.WaitGroup
+	start := make(chan struct{})
+	for ti, tv := range threads {
+		ops, _ := tv.([]interface{})
+		wg.Add(1)
+		go func(t int, ops []interface{}) {
+			defer wg.Done()
+			<-start
+			for _, o := range ops {
+				om, _ := o.(map[string]interface{})
+				exec(t, vh.Step(om))
+			}
+		}(ti+1, ops)
+	}
+	close(start)
+	done := make(chan struct{})
+	go func() { wg.Wait(); close(done) }()
+	select {
+	case <-done:
+	case <-time.After(60 * time.Second):
+		rec.Note = "concurrent phase did not finish"
+		emit(vh.Event{"ev": "hang"})
+	}
+	for _, e := range events {
+		rec.Emit(e)
+	}
+	// final state: the running instance and the reopened store must agree with the linearisation's final state
+	fin := vh.Event{"ev": "final"}
+	fin["run"] = map[string]interface{}{"w1": d.project(m)}
+	reo, _ := d.reopenProj(w, 1)
+	fin["reo"] = map[string]interface{}{"w1": reo}
+	fin["keyok"] = d.keyok
+	rec.Emit(fin)
+}
+
+func mustAddr(m *keystore.KeystoreManagerForPoC, pk *pocec.PublicKey) string {
+	a, _ := m.GetAddressByPubKey(pk)
+	return a
+}
+
 func run(sc vh.Scenario, dir string, rec *vh.Rec) {
+	if _, ok := sc.Opt["threads"]; ok {
+		runConc(sc, dir, rec)
+		return
+	}
 	keystore.DefaultScryptOptions = fast
 	d := newDrv(sc, dir)
 	rec.Conc = map[string]string{}
